@@ -92,6 +92,11 @@ type strIter struct {
 	Pos int
 }
 
+type symStrIter struct {
+	B   []Int
+	Pos int
+}
+
 func mask(bits uint8) uint64 {
 	if bits >= 64 {
 		return ^uint64(0)
@@ -434,7 +439,7 @@ func show(v Value) string {
 		}
 		return fmt.Sprint(x.C)
 	case Str:
-		return fmt.Sprintf("%q", x.S)
+		return showStr(x)
 	case Struct:
 		var p []string
 		for _, e := range x {
